@@ -176,6 +176,21 @@ def check_query(col, kind, factory, q, with_store):
                         check_metadata(col, g.metadata, ref, g.data, "metadata of cache.get(query)", w)
                     if cm is not None and cm.get("status") == "ready":
                         agree(col, md, cm, "cache.get_metadata(query) vs returned", w)
+                    # the copies kept for the PREFIXES of the query still describe the prefixes: a later step never rewrites them
+                    try:
+                        absolute, actions, _fn = M._split_query(M.parse(q))
+                    except Exception:
+                        actions = []
+                    for i in range(1, len(actions) + (1 if _fn is not None and actions else 0)):
+                        pq = M.canonical(actions[:i], None, absolute)
+                        if pq == canon:
+                            continue
+                        pref = M.Sem(pq)
+                        if not (pref.ok and M.sem_cacheable(pref)):
+                            continue
+                        pg = M.quiet(c.get, pq)
+                        if pg is not None:
+                            check_metadata(col, pg.metadata, pref, pg.data, "metadata the cache keeps for the prefix %r" % pq, w)
                 if key is not None:
                     tid = md.get("type_identifier")
                     ext = (ref.extension or "")
